@@ -99,6 +99,14 @@ class Contract:
     def cases(self):
         return ['']
 
+    def case_in_property(self, case, pid):
+        """Which cases carry which property (default: all)."""
+        return True
+
+    def active_cases(self):
+        pid = getattr(self, 'active_property', None)
+        return [c for c in self.cases() if pid is None or self.case_in_property(c, pid)]
+
     def params(self, cx, case):
         """dict param name -> value for verification of `case`; ghosts via cx.ghost(name, value)."""
         raise NotImplementedError
@@ -412,7 +420,7 @@ def verify_contract(con, registry, config=None):
     seg = _ast.get_source_segment(open(path).read(), fnode) or ''
     rep.source = {'file': os.path.relpath(path, REPO), 'qualname': qual, 'line': fnode.lineno,
                   'sha256': hashlib.sha256(seg.encode()).hexdigest(), 'lines': seg.count('\n') + 1}
-    for case in con.cases():
+    for case in con.active_cases():
         I = Interp(contracts=registry, config=config or {})
         I.active = con
         cx = Cx()
